@@ -1,4 +1,26 @@
-"""C12 worker: dimod.lp.loads(dimod.lp.dumps(cqm)) on LP-expressible CQMs, and the refusal stream."""
+"""C12 worker: dimod.lp.loads(dimod.lp.dumps(cqm)) on LP-expressible CQMs, and the refusal stream.
+
+Coverage of the property text, clause by clause (stream = `kind` of the generated case):
+
+  same variables, types and bounds                 trip: BINARY / INTEGER / REAL x explicit / one-sided / default bounds, zero, negative
+                                                   and fractional bounds, lb == ub, unused variables, variables only in constraints /
+                                                   only in the objective; huge: bounds at the vartype limits (+-1e30, +-(2^53-1))
+  same constraint labels, senses, right-hand sides trip: 0-5 (huge: 1-7) constraints, all senses, labels equal to variable labels,
+                                                   empty left-hand sides; huge: rhs +-1e29..1.8e308 and subnormal
+  objective / lhs evaluate identically             coefficient-wise in Coq + energies at 2 samples; squared INTEGER terms, `[ ... ]/2`
+                                                   doubling, zero coefficients, constant offsets (objective: constant; constraint: moved
+                                                   to the rhs), empty objective, offset-only objective
+  negative and fractional coefficients, magnitudes rand_coef: +-1, 0, dyadics 2^-10..2^31; huge/extreme: 5e-324 .. 1.8e308 (exact compare)
+  long lines that are wrapped                      labels of 1-90 (255) characters, up to 14 terms: recorded writes vs Coq wrap model
+  labels within the LP grammar                     rand_label over LABEL_VALID_CHARS incl. punctuation, quotes; reads / reads_names:
+                                                   keywords in any case, inf/nan prefixes, ';', free, two-word keywords (open findings)
+  the text itself                                  KTripFull: words (worker-classified) and CHARACTERS (Coq tokenizer + keyword stage)
+                                                   through the reference parser against what the C++ reader built
+  refusals                                         refuse: SPIN (used / unused), soft constraint, non-string / empty / 256+ /
+                                                   bad-first-character / out-of-alphabet labels on variables and constraints, controls
+Not reached: LP files not written by lp.dumps (Maximize, ranges, `free`, one-sided bound lines, comments, sections in another
+order) - the property is about the writer's output; discrete-constraint markers (lost by the format, not refused).
+"""
 import io
 from fractions import Fraction
 
@@ -227,6 +249,8 @@ def gen_case0(rng, tier):
 
 
 HUGE = [1e29, 1e30, 3e30, 1e31, 1e100, 1e300, 1.7976931348623157e308, 2.0 ** 100, 9007199254740993.0 * 4]
+TINY = [5e-324, 3e-310, 1.5e-315, 2.2250738585072009e-308, 2.2250738585072014e-308, 1e-300, 2.0 ** -1060 * 12345, 1e-30]
+LARGE = [1e300, 3.5e307, 1.7976931348623157e308, 2.0 ** 1000]
 REAL_LIMITS = [-1e30, -1e29, -1.5, 0.0, 2.0 ** 70, 1e29, 1e30]
 INT_LIMITS = [-(2 ** 53 - 1), -(2 ** 53 - 2), -(2 ** 40), 0, 2 ** 40, 2 ** 53 - 2, 2 ** 53 - 1]
 
@@ -249,13 +273,28 @@ def gen_huge(rng, tier, used):
             else:
                 v[3] = None
     obj = rand_expr(rng, vars_, 3)
+    extreme = rng.random() < 0.6
+
+    def extremes(e):
+        # coefficient magnitudes at the ends of the double range: subnormal (below 2.2250738585072014e-308, where
+        # strtod reports ERANGE although it converts), smallest normal, and large; every value is a double and is
+        # written by repr / re-read by strtod exactly; the objective doubles quadratic biases, so those stay below 8e307
+        if extreme:
+            e["lin"] = [[v, str(Fraction(rng.choice([1, -1]) * rng.choice(TINY + LARGE))) if rng.random() < 0.4 else b]
+                        for v, b in e["lin"]]
+            e["quad"] = [[u, v, str(Fraction(rng.choice([1, -1]) * rng.choice(TINY + LARGE[:2]))) if rng.random() < 0.4 else b]
+                         for u, v, b in e["quad"]]
+        return e
+    obj = extremes(obj)
+    if extreme and rng.random() < 0.3:
+        obj["off"] = str(Fraction(rng.choice([1, -1]) * rng.choice(TINY + LARGE)))
     cons = []
     for _ in range(rng.randint(1, 7)):
-        e = rand_expr(rng, vars_, rng.randint(0, 3))
+        e = extremes(rand_expr(rng, vars_, rng.randint(0, 3)))
         e["off"] = "0"
-        rhs = rng.choice([1, -1]) * rng.choice(HUGE) if rng.random() < 0.9 else float(rand_coef(rng))
+        rhs = rng.choice([1, -1]) * rng.choice(HUGE + (TINY if extreme else [])) if rng.random() < 0.9 else float(rand_coef(rng))
         cons.append({"label": rand_label(rng, tier, used), "sense": rng.choice(list(SENSES)), "rhs": str(Fraction(rhs)), **e})
-    return {"kind": "trip", "huge": True, "vars": vars_, "obj": obj, "cons": cons, "probes": []}
+    return {"kind": "trip", "huge": True, "extreme": extreme, "vars": vars_, "obj": obj, "cons": cons, "probes": []}
 
 
 def rand_bad_label(rng):
@@ -396,6 +435,22 @@ def lex_lp(text, T, con_index):
     return toks
 
 
+def numeral_table(text):
+    """(word, double) for the numerals of the text whose exact decimal value is not a double"""
+    tbl = {}
+    for w in text.split():
+        if w[:1] in '+-':
+            w = w[1:]
+        if w[:1].isdigit() and w not in tbl:
+            try:
+                x = float(w)
+                if np.isfinite(x) and Fraction(w) != Fraction(x):
+                    tbl[w] = x
+            except ValueError:
+                pass
+    return clist([cpair(ctext(w), cq(Fraction(x))) for w, x in tbl.items()])
+
+
 class Recorder:
     """records the sequence of _WidthLimitedFile.write calls"""
     def __init__(self):
@@ -472,6 +527,7 @@ def run_trip(c):
     if py_fail is not None:
         return {"py_fail": py_fail, "features": feats, "observed": text[:2000]}
     feats["huge"] = bool(c.get("huge"))
+    feats["extreme"] = bool(c.get("extreme"))
     # sense and finiteness first (a non-finite number cannot be rendered for the exact comparison)
     for lab, k in cqm.constraints.items():
         k2 = new.constraints[lab]
@@ -509,7 +565,14 @@ def run_trip(c):
                        for lab, k in new.constraints.items()])
         vars1 = clist([f"(mkVar {cnat(T.idx(v))} {new.vartype(v).name} {cq(F(new.lower_bound(v)))} {cq(F(new.upper_bound(v)))})"
                        for v in new.variables])
-        extra.append(f"(KParse {cnat(n)} {clist(toks)} {obs_expr(new.objective, T)} {cons1} {vars1})")
+        # one term for the round trip (the text is carried once): KTrip's comparisons, the reference parser on the
+        # worker-classified words (KParse), and the same comparison from the CHARACTERS of the text - Coq model of the
+        # reader's tokenizer and keyword stage (Model/LPLex.v) in front of the reference parser; only the numerals
+        # whose decimal value is not a double are looked up (word -> Python float), the others are evaluated by the
+        # Coq decimal reader
+        coq = (f"(KTripFull {cnat(n)} {obs_expr(cqm.objective, T)} {obs_expr(new.objective, T)} {clist(cons)} {clist(probes)} "
+               f"{clist([ctext(w) for w in rec.writes])} {ctext(text)} {clist(labels)} "
+               f"{clist(toks)} {cons1} {vars1} {numeral_table(text)})")
     except (ValueError, KeyError) as e:
         return {"py_fail": f"the text of dumps is not made of the writer's words: {type(e).__name__}: {e}", "features": feats,
                 "observed": text[:2000]}
